@@ -25,6 +25,7 @@ var (
 	safeConds    = []string{"1", "`echo 1`", "$VERIF_UNSET_VAR", "${HOME}", "x"}
 	cronOK       = []string{"* * * * *", "*/5 * * * *", "0 1 * * *", "0 0 1 1 *", "15 3 * * mon-fri", "0 0 30 2 *"}
 	signalsOK    = []string{"SIGTERM", "SIGINT", "SIGKILL", "SIGHUP", "SIGUSR1"}
+	signalsOdd   = []string{"sigterm", "TERM", " SIGTERM", "SIGTERM ", "Sigint", "term", "15", "9", "SIG", "sigkill\n"}
 )
 
 func pickStr(r *rand.Rand, xs []string) string { return xs[r.Intn(len(xs))] }
@@ -247,6 +248,10 @@ func genExecDoc(r *rand.Rand) ym {
 	if r.Intn(4) == 0 {
 		d = append(d, kv("maxActiveRuns", 1+r.Intn(2)))
 	}
+	if r.Intn(5) == 0 {
+		// notifications switched on without any mail section (no SMTP host: sending fails at once)
+		d = append(d, kv("mailOn", ym{kv("failure", r.Intn(2) == 0), kv("success", r.Intn(2) == 0)}))
+	}
 	n := 1 + r.Intn(4)
 	var steps []any
 	var names []string
@@ -277,6 +282,12 @@ func genExecDoc(r *rand.Rand) ym {
 		if r.Intn(5) == 0 {
 			s = append(s, kv("output", "OUT_"+strings.ToUpper(nm)))
 		}
+		if r.Intn(9) == 0 {
+			s = append(s, kv("mailOnError", true))
+		}
+		if r.Intn(9) == 0 {
+			s = append(s, kv("signalOnStop", pickStr(r, append(append([]string{}, signalsOK...), signalsOdd...))))
+		}
 		if r.Intn(6) == 0 {
 			s = append(s, kv("stdout", "${VERIF_SHARD_SCRATCH}/out-"+nm+".txt"))
 		}
@@ -296,7 +307,7 @@ func genExecDoc(r *rand.Rand) ym {
 
 // ---- mutation ------------------------------------------------------------------
 
-var hostileStrings = []string{"", " ", "re:[", "re:(", "re:*", "61 * * * *", "* * *", "not a cron", "SIGFOO", "0", "`", "``", "${", "$(", "$", "y", "n", "~", "null", ".nan", "!!binary abc", "*alias", "&anc x", ": ", "- ", "{", "[", "\t", "a\nb", "\\", "\"", "'", "%", "=", "==", "a=", "=b", "\"unterminated", "0x1F", "1e309", "-", "--", "#", "@every 1m", "CRON_TZ=UTC * * * * *", "üñí€😀", strings.Repeat("A", 70000), strings.Repeat("ab ", 3000)}
+var hostileStrings = []string{"", " ", "re:[", "re:(", "re:*", "61 * * * *", "* * *", "not a cron", "SIGFOO", "0", "`", "``", "${", "$(", "$", "y", "n", "~", "null", ".nan", "!!binary abc", "*alias", "&anc x", ": ", "- ", "{", "[", "\t", "a\nb", "\\", "\"", "'", "%", "=", "==", "a=", "=b", "\"unterminated", "0x1F", "1e309", "-", "--", "#", "@every 1m", "CRON_TZ=UTC * * * * *", "TZ=UTC", "CRON_TZ=UTC", "TZ=", "CRON_TZ= * * * * *", "TZ=Nowhere/Land 1 2 3 4 5", "@daily", "@reboot", "@", "üñí€😀", strings.Repeat("A", 70000), strings.Repeat("ab ", 3000)}
 
 func hostileValue(r *rand.Rand, depth int) any {
 	switch r.Intn(16) {
